@@ -238,10 +238,13 @@ class ScriptedPort(ebbfake.PortExtras):
         if c["o"] == "timeout" or c["reads"] <= c["e"]:
             self._log_r("empty")
             return b""
-        c["done"] = True
         if c["o"] == "raise":
+            # the exception is about THIS read; the device has answered all the same and the line is there for whoever reads on
+            # (the pinned code never does: the request has failed) - a request that swallows the exception and succeeds is judged
             self._log_r("raise")
+            c["o"] = "conf"
             raise self.io_exc("injected read failure")
+        c["done"] = True
         self._log_r(c["o"], c["r"])
         line = render_reply(c["o"], c["name"], c["r"], c.get("shape", ""))
         self.ops[-1]["line"] = line
@@ -257,6 +260,8 @@ class ScriptedPort(ebbfake.PortExtras):
             CLOSE_RAISED.append(1)
             # the port is gone all the same (cable pulled): close() reports it, the object must still end up not connected
             kind = self.close_fault.replace("+os", "")
+            if kind == "oserr":               # what os.close() raises when the device node is already gone (pyserial does not wrap it)
+                raise OSError(6, "injected close failure: no such device")
             exc = self.serial.SerialException if kind == "serial" else self.serial.serialutil.PortNotOpenError
             raise exc() if kind != "serial" else exc("injected close failure")
 
@@ -416,7 +421,7 @@ def judge(ctx, name, events, chunk=400):
 # G: scripts from the model
 # ---------------------------------------------------------------------------
 
-CLOSE_FAULTS = ["", "+os", "serial", "notopen", "", "serial+os"]
+CLOSE_FAULTS = ["", "+os", "serial", "notopen", "", "serial+os", "oserr+os"]
 CLOSE_RAISED = []                 # one entry per close() that raised (run_call looks at its growth)
 OPENED = []                       # one entry per port the code under test opened through the stubbed serial.Serial
 
